@@ -182,12 +182,21 @@ structure StreamReqM where
   vars : List (Option StreamVarM)
 deriving DecidableEq, Repr
 
+/-- one stream variable of the request: an absent one is an empty sub-message. -/
+def marshalSVarOpt (v : Option StreamVarM) : Bytes :=
+  match v with
+  | none => be 4 0
+  | some s => be 4 (streamVarSize s) ++ marshalStreamVar s
+
 /-- `WriteStreamPointsRequest.Marshal` -/
 def marshalStreamReq (w : StreamReqM) : Bytes :=
-  bytes32 w.points ++ (be 4 w.vars.length ++ w.vars.flatMap fun v =>
-    match v with
-    | none => be 4 0
-    | some s => be 4 (streamVarSize s) ++ marshalStreamVar s)
+  bytes32 w.points ++ (be 4 w.vars.length ++ w.vars.flatMap marshalSVarOpt)
+
+def readSVar (b : Bytes) : Option (Option StreamVarM × Bytes) :=
+  match decBytes b with
+  | none => none
+  | some (sub, r) =>
+    if sub = [] then some (none, r) else (unmarshalStreamVar sub).map fun s => (some s, r)
 
 def unmarshalStreamReq (bs : Bytes) : Option StreamReqM :=
   if bs = [] then some ⟨[], []⟩
@@ -198,10 +207,7 @@ def unmarshalStreamReq (bs : Bytes) : Option StreamReqM :=
       match readBE 4 r0 with
       | none => none
       | some (n, r1) =>
-        match readN (fun b => match decBytes b with
-            | none => none
-            | some (sub, r) => if sub = [] then some (none, r) else (unmarshalStreamVar sub).map fun s => (some s, r))
-            n r1 with
+        match readN readSVar n r1 with
         | none => none
         | some (vs, _) => some ⟨pts, vs⟩
 
